@@ -375,6 +375,14 @@ Theorem C02_source_btp_decoders_are_the_model : forall bs, wf_bytes bs = true ->
 Proof. exact src_btp_decode. Qed.
 Print Assumptions C02_source_btp_decoders_are_the_model.
 
+(* Router.get_sequence_number (result, new counter): the sequence number put into the next multi-hop packet always fits
+   its 16-bit field *)
+Theorem C02_source_sequence_number_counter : forall sn,
+  Router_get_sequence_number sn = (next_sn sn, next_sn sn) /\
+  (let '(r, c) := Router_get_sequence_number sn in r = c /\ 0 <= r < 65535 /\ fits 16 r = true).
+Proof. exact (fun sn => conj (src_next_sn sn) (src_next_sn_fits sn)). Qed.
+Print Assumptions C02_source_sequence_number_counter.
+
 Example C02_source_example :
   LPV_encode 0 5 [0; 0; 0; 0; 43; 103] 123456 (-338688000) (-1512093000) 1 (-300) 3599
   = Some (enc_lpv [0; 5; 11111; 123456; -338688000; -1512093000; 1; -300; 3599]).
